@@ -53,6 +53,9 @@ LEG = {
  'zzConnCancel': "Cancel(id) of an inbound request leaves this connection's outgoing calls alone, also one bearing the very same number (inbound and outbound ids are independent number spaces).",
  'zzC10Route': "With an event store whose Append fails the message still goes out on the live exchange, and whatever Write reports wraps ErrRejected (a plain error would make jsonrpc2 tear the connection down behind the HTTP handler's back, leaving a dead session id that is still honoured: C11).",
  'zzC07ArbitraryPeer': "Connect leaves the caller's ClientSessionOptions as they were (a caller re-using the value for its next Connect asks for what it wrote there).",
+ 'zzChallengeRoundTrip': "The challenge the SDK's own middleware emits (`Bearer resource_metadata=%q, scope=%q`, either optional) read back by ParseWWWAuthenticate/splitChallenges/parseSingleChallenge (real code, symbolic strings): one bearer challenge whose parameters are exactly the configured strings, for every visible-ASCII value without quote/backslash of up to 4 (thorough 6) bytes — commas, equal signs and blanks included.",
+ 'zzC04Listen': "callSubscriptionsListen: issued exactly once and not awaited; nothing is cancelled while the caller's context lives; when it ends the peer gets one cancelled notice naming that call and the call is retired.",
+ 'zzC12HeaderName': "validateHeaderName against RFC 9110's token grammar stated independently, for every name of up to 2 (thorough 3) bytes.",
  'zzC14Decision': "The HTTP method (any of nine, symbolic) and ambient headers (CORS preflight markers, forwarding headers, cookies; optional map entries) are arbitrary and must not influence the decision; expirations up to ~35 000 years ahead (time.Duration saturation).",
 }
 ADD_ASSUME = {
